@@ -1,8 +1,8 @@
 #!/bin/sh
 # usage: tools/round2.sh Cxx  -- import round-2 results a,b of a property as seeded/Cxx-c, Cxx-d and run its quick check against each
 cd "$(dirname "$0")/.."
-P=$1
-python3 tools/import_seed.py $P a c 2>&1 | tail -2
-python3 tools/import_seed.py $P b d 2>&1 | tail -2
-[ -d seeded/$P-c ] && python3 tools/run_seeded.py $P-c 2>&1 | tail -1
-[ -d seeded/$P-d ] && python3 tools/run_seeded.py $P-d 2>&1 | tail -1
+P=$1; L1=${2:-c}; L2=${3:-d}
+python3 tools/import_seed.py $P a $L1 2>&1 | tail -2
+python3 tools/import_seed.py $P b $L2 2>&1 | tail -2
+[ -d seeded/$P-$L1 ] && python3 tools/run_seeded.py $P-$L1 2>&1 | tail -1
+[ -d seeded/$P-$L2 ] && python3 tools/run_seeded.py $P-$L2 2>&1 | tail -1
